@@ -63,6 +63,12 @@ Fails(ln) ==
           THEN {"header_signing_used_when_both_advertised"} ELSE {})
   \cup (IF Rejected(ln) /\ ln.end # "error" THEN {"rejection_must_surface_as_error"} ELSE {})
   \cup (IF ln.end = "hang" THEN {"handshake_must_terminate"} ELSE {})
+  (* the server accepted at every step (nothing in Rejected was delivered), the provider still had tokens to exchange or *)
+  (* the request to make, and RpcBind's client would have carried on - but the real client gave up: the server's token  *)
+  (* was not fed back / the remaining tokens were not sent although the context was incomplete                           *)
+  \cup (IF ~DontCare(ln) /\ ~Rejected(ln) /\ ln.end = "error"
+           /\ Fold(Start(ln.prov), ln.prov, Delivered(ln), 1).pc # "error"
+          THEN {"handshake_abandoned_although_the_server_accepted"} ELSE {})
   (* extended behaviour, beyond the listed property: reported as drift *)
   \cup (IF ~ln.allClosed THEN {"EXT_every_connection_is_closed_whatever_the_outcome"} ELSE {})
   \cup (IF ~ln.ctxReqOK THEN {"EXT_security_context_for_host_service_of_the_server_with_dce_style"} ELSE {})
